@@ -10,6 +10,7 @@ import (
 	zerr "github.com/DemoHn/Zn/pkg/error"
 	"github.com/DemoHn/Zn/pkg/exec"
 	r "github.com/DemoHn/Zn/pkg/runtime"
+	"github.com/DemoHn/Zn/pkg/value"
 	"github.com/DemoHn/Zn/pkg/syntax"
 	"github.com/DemoHn/Zn/pkg/syntax/zh"
 )
@@ -63,6 +64,20 @@ func main() {
 	}
 	// {"alphabet":[cps],"maxlen":n} -> {"out":"0120..."}: every string over the alphabet of length 0..n,
 	// by length, then lexicographically by alphabet index (first character most significant)
+	// {"cps":[...]}: the literal evaluated by a program (令数值量 = <literal>; 输出 数值量 + 0 is avoided: the plain literal is output)
+	// -> {"kind":1,"bits":..} number | {"kind":0} another value | {"kind":2} error
+	commands["evalnum"] = func(in map[string]interface{}) map[string]interface{} {
+		lit := string(hlib.RunesOfCps(in["cps"]))
+		z := exec.NewInterpreter("verif")
+		elem, err := z.LoadScript([]rune("令数值量 = " + lit + "\n输出数值量")).Execute(r.ElementMap{})
+		if err != nil {
+			return map[string]interface{}{"kind": 2}
+		}
+		if n, ok := elem.(*value.Number); ok {
+			return map[string]interface{}{"kind": 1, "bits": fmt.Sprintf("%016x", math.Float64bits(n.GetValue()))}
+		}
+		return map[string]interface{}{"kind": 0}
+	}
 	commands["numexhaust"] = func(in map[string]interface{}) map[string]interface{} {
 		alpha := hlib.RunesOfCps(in["alphabet"])
 		n := int(in["maxlen"].(float64))
